@@ -452,9 +452,9 @@ func mutate(rt *rapid.T, root *eip712ref.JNode, step int) string {
 	types := root.Get("types")
 	cat := rapid.IntRange(0, 99).Draw(rt, L("cat"))
 	switch {
-	case cat < 40:
+	case cat < 35:
 		// positional: any node of a chosen region
-		regions := []string{"top", "types", "domain", "message"}
+		regions := []string{"top", "types", "types", "types", "domain", "domain", "message", "message", "message", "message"}
 		region := rapid.SampledFrom(regions).Draw(rt, L("region"))
 		var slots []slot
 		if region == "top" {
@@ -543,7 +543,7 @@ func mutate(rt *rapid.T, root *eip712ref.JNode, step int) string {
 			s.parent.Vals[s.idx] = eip712ref.JNum(rapid.SampledFrom([]string{"1.5", "-1", "1e400", "-1e400", "1e-400", "9007199254740993", "9223372036854775808", "18446744073709551616", "115792089237316195423570985008687907853269984665640564039457584007913129639936", "-57896044618658097711785492504343953926634992332820282019728792003956564819969", "0.1", "-0", "1E2", "123456789012345678901234567890"}).Draw(rt, L("num")))
 			return "pos:number@" + region
 		}
-	case cat < 80 && types != nil && types.Kind == 'o' && len(types.Vals) > 0:
+	case cat < 65 && types != nil && types.Kind == 'o' && len(types.Vals) > 0:
 		ti := rapid.IntRange(0, len(types.Vals)-1).Draw(rt, L("type"))
 		def := types.Vals[ti]
 		op := rapid.IntRange(0, 15).Draw(rt, L("top"))
@@ -641,7 +641,7 @@ func mutate(rt *rapid.T, root *eip712ref.JNode, step int) string {
 			def.Vals[mi] = rapid.SampledFrom([]*eip712ref.JNode{eip712ref.JNull(), eip712ref.JStr("uint256 x"), eip712ref.JNum("1"), {Kind: 'a'}, eip712ref.JBool(true)}).Draw(rt, L("memberkind")).Clone()
 			return "types:member-kind"
 		}
-	case cat < 90:
+	case cat < 73:
 		switch rapid.IntRange(0, 7).Draw(rt, L("pt")) {
 		case 0:
 			root.Set("primaryType", eip712ref.JStr(rapid.SampledFrom(oddTypes).Draw(rt, L("odd"))))
@@ -688,6 +688,14 @@ func mutate(rt *rapid.T, root *eip712ref.JNode, step int) string {
 			return "value:message-array"
 		}
 		s := slots[rapid.IntRange(0, len(slots)-1).Draw(rt, L("slot"))]
+		// two more draws: prefer arrays, then objects (shape mutations are the rarer ones)
+		for i := 0; i < 2 && s.parent.Vals[s.idx].Kind != 'a'; i++ {
+			s2 := slots[rapid.IntRange(0, len(slots)-1).Draw(rt, L(fmt.Sprintf("slot%d", i+2)))]
+			k2 := s2.parent.Vals[s2.idx].Kind
+			if k2 == 'a' || (k2 == 'o' && s.parent.Vals[s.idx].Kind != 'o') {
+				s = s2
+			}
+		}
 		cur := s.parent.Vals[s.idx]
 		switch cur.Kind {
 		case 'a':
